@@ -238,7 +238,8 @@ def run_cli(case, text, obs):
     os.makedirs(d, exist_ok=True)
     stem = case["stem"]
     src = os.path.join(d, stem + ".bas")
-    dst = os.path.join(d, stem + ".b09")
+    # the output file is named differently from the input: the procedure is named after the INPUT file
+    dst = os.path.join(d, ("out_" + stem if case["seed"] % 2 else "result") + ".b09")
     cfgf = os.path.join(d, "cfg.yaml")
     with open(src, "w", newline="") as f:
         f.write(text)
